@@ -75,8 +75,8 @@ func bigUn(f func(z, x *big.Int) *big.Int) intrinFn {
 
 func (r *Run) needConcrete(xs ...*BigV) {
 	for _, x := range xs {
-		if x.sym != nil {
-			panic(unsupported("symbolic big.Int outside Int mode operation at " + r.curPos()))
+		if x.sym != nil || x.bsym != nil {
+			panic(unsupported("arithmetic on a symbolic big.Int (only SetBytes/Cmp/Sign/Bytes are supported in BV mode) at " + r.curPos()))
 		}
 	}
 }
@@ -115,7 +115,17 @@ func init() {
 			}
 			return res
 		}),
-		B + "Set":  bigUn(func(z, x *big.Int) *big.Int { return z.Set(x) }),
+		B + "Set": func(r *Run, fn *ssa.Function, a []Value) Value {
+			x := r.bigCell(a[1], false)
+			z := r.bigCell(a[0], true)
+			if x.v != nil {
+				z.v = new(big.Int).Set(x.v)
+			} else {
+				z.v = nil
+			}
+			z.sym, z.bsym = x.sym, x.bsym
+			return a[0]
+		},
 		B + "Neg":  bigUn(func(z, x *big.Int) *big.Int { return z.Neg(x) }),
 		B + "Abs":  bigUn(func(z, x *big.Int) *big.Int { return z.Abs(x) }),
 		B + "Not":  bigUn(func(z, x *big.Int) *big.Int { return z.Not(x) }),
@@ -223,7 +233,7 @@ func init() {
 			} else if r.intMode != nil {
 				*z = *r.intBigFromBytes(b)
 			} else {
-				panic(unsupported("big.Int.SetBytes of symbolic bytes in BV mode at " + r.curPos()))
+				z.v, z.sym, z.bsym = nil, nil, append([]*Term{}, b...)
 			}
 			return a[0]
 		},
@@ -231,6 +241,14 @@ func init() {
 			x := r.bigCell(a[0], false)
 			if x.sym != nil {
 				return r.intBigBytes(x)
+			}
+			if x.bsym != nil {
+				// strip leading zero bytes (forks on each)
+				bs := x.bsym
+				for len(bs) > 0 && r.branch(r.ts.Eq(bs[0], r.ts.Const(8, 0))) {
+					bs = bs[1:]
+				}
+				return r.newByteSlice(bs, len(bs))
 			}
 			b := x.v.Bytes()
 			return r.newByteSlice(r.constBytes(b), len(b))
@@ -255,6 +273,22 @@ func init() {
 			if x.sym != nil || y.sym != nil {
 				return r.intBigCmp(x, y)
 			}
+			if x.bsym != nil || y.bsym != nil {
+				xb, xneg := r.bigMagBytes(x)
+				yb, yneg := r.bigMagBytes(y)
+				if xneg || yneg {
+					panic(unsupported("comparison of symbolic big.Int with a negative number"))
+				}
+				for len(xb) < len(yb) {
+					xb = append([]*Term{r.ts.Const(8, 0)}, xb...)
+				}
+				for len(yb) < len(xb) {
+					yb = append([]*Term{r.ts.Const(8, 0)}, yb...)
+				}
+				lt := r.strLess(StrV{b: xb}, StrV{b: yb}, false)
+				eq := r.eqVal(StrV{b: xb}, StrV{b: yb})
+				return r.ts.Ite(lt, r.ts.Const(64, ^uint64(0)), r.ts.Ite(eq, r.ts.Const(64, 0), r.ts.Const(64, 1)))
+			}
 			return r.ts.Const(64, uint64(int64(x.v.Cmp(y.v))))
 		},
 		B + "CmpAbs": func(r *Run, fn *ssa.Function, a []Value) Value {
@@ -266,6 +300,13 @@ func init() {
 			x := r.bigCell(a[0], false)
 			if x.sym != nil {
 				return r.intBigSign(x)
+			}
+			if x.bsym != nil {
+				nz := r.ts.Bool(false)
+				for _, b := range x.bsym {
+					nz = r.ts.BOr(nz, r.ts.BNot(r.ts.Eq(b, r.ts.Const(8, 0))))
+				}
+				return r.ts.Ite(nz, r.ts.Const(64, 1), r.ts.Const(64, 0))
 			}
 			return r.ts.Const(64, uint64(int64(x.v.Sign())))
 		},
@@ -393,5 +434,13 @@ func init() {
 	}
 }
 
+
+// bigMagBytes gives the big-endian magnitude bytes of a BV-mode big value.
+func (r *Run) bigMagBytes(x *BigV) ([]*Term, bool) {
+	if x.bsym != nil {
+		return append([]*Term{}, x.bsym...), false
+	}
+	return r.constBytes(x.v.Bytes()), x.v.Sign() < 0
+}
 
 var _ = fmt.Sprint
